@@ -25,7 +25,7 @@ ENV["RUSTFLAGS"] = "--cfg koge29_verif"
 ENV.pop("RUSTC_WRAPPER", None)
 
 CHECK_RE = re.compile(
-    r"^Check \d+: (?P<name>\S+)\n\s+- Status: (?P<status>\w+)\n\s+- Description: \"(?P<desc>.*)\"\n(?:\s+- Location: (?P<loc>.*)\n)?",
+    r"^Check \d+: (?P<name>.+)\n\s+- Status: (?P<status>\w+)\n\s+- Description: \"(?P<desc>.*)\"\n(?:\s+- Location: (?P<loc>.*)\n)?",
     re.M,
 )
 
@@ -182,7 +182,7 @@ def run_harness(spec, tier):
         res = parse_log(text)
         res.update({"name": name, "wall_s": round(secs, 1), "rc": rc, "timed_out": to, "spec": spec, "playback": []})
         res["state"] = classify(res, text)
-        if res["state"] == "failed":
+        if res["state"] == "failed" and not os.environ.get("VERIF_NO_PLAYBACK"):
             # counterexample extraction
             pb_log = os.path.join(LOGS, f"{name}.playback.log")
             rc2, secs2, to2 = run_limited(kani_cmd(name, tdir, playback=True), pb_log, timeout, spec["mem_gb"])
